@@ -41,7 +41,7 @@ EXPLANATION = ("Exhaustive sub-space (both tiers): every labelled graph up to is
                "Everything else is seeded random / "
                "corpus sampling.  Theorems (coq/props/C11.v, all closed under the global context): C11_vocabulary, C11_aut_count, C11_aut_group, "
                "C11_vf2_contract, C11_vf2_contract_items, C11_orbits_exact, C11_orbits_partition, C11_components, C11_anchors, C11_object_state, C11_wl_never_splits, C11_wl_partition, C11_wfb_sound, "
-               "C11_dedup_sublist, C11_dedup_first_of_class, C11_dedup_idempotent, C11_partial_prune, C11_partial_prune_hosts, C11_prune_complete, C11_rep_ok, C11_prune_complete_aut, C11_prune_first_of_class, C11_prune_same_results, C11_configured_labels_only, C11_key_options, C11_rule_labels, C11_orbit_accuracy, C11_aut_observable, C11_wl_never_splits_reported, C11_orbit_accuracy_all, C11_orbit_order, C11_views, C11_dedup_singletons_sound, C11_dedup_orbit_sets_merge_unrelated, C11_orbits_no_swaps, C11_count_no_swaps.")
+               "C11_dedup_sublist, C11_dedup_first_of_class, C11_dedup_idempotent, C11_partial_prune, C11_partial_prune_hosts, C11_prune_complete, C11_rep_ok, C11_prune_complete_aut, C11_prune_first_of_class, C11_prune_same_results, C11_configured_labels_only, C11_key_options, C11_rule_labels, C11_orbit_accuracy, C11_aut_observable, C11_wl_never_splits_reported, C11_orbit_accuracy_all, C11_orbit_order, C11_views, C11_dedup_singletons_sound, C11_dedup_orbit_sets_merge_unrelated, C11_orbits_no_swaps, C11_count_no_swaps, C11_repr_numeral, C11_reported_order_canonical, C11_prune_attr.")
 TRUSTED_BASE = [
     "Coq 8.16.1 kernel + vm_compute (no native_compute)",
     "hand-written model coq/model/C11_Model.v tied to synkit/Graph/Matcher/{automorphism,auto_est,dedup_matches}.py and the pruning call of "
@@ -50,7 +50,8 @@ TRUSTED_BASE = [
     "enumerated maps and the set of their (node, image) pairs; C11_vf2_contract(_items) show that any duplicate-free listing of exactly the "
     "label-preserving automorphisms (maps as dictionaries, item order free) gives the same analysis; that VF2 is such a listing is monitored on every case (count, orbit sets, number "
     "of rule automorphisms) and independently against a brute-force Python enumerator in the oracle",
-    "harness encoders harness/props/C11.py (attribute tuples interned injectively to N; dict order shipped as list order); the theorems' "
+    "harness encoders harness/props/C11.py (bulk cases: attribute tuples interned injectively to N; attribute-dictionary cases: keys and "
+    "values coded injectively, selection / defaults / tuple building in the model; dict order shipped as list order); the theorems' "
     "premise wf (distinct node ids, edges between distinct listed nodes, one entry per unordered pair) is computed by the model function wfb "
     "on every encoded graph and compared with True",
     "C11_prune_same_results is stated for any result function that depends only on the item set of a match and is invariant under rule "
@@ -59,12 +60,14 @@ TRUSTED_BASE = [
 ]
 ASSUMPTIONS = ["node ids are non-negative integers", "an absent attribute is its default label (charge 0, other node attributes '*', bond order 1.0)",
                "graphs are simple and undirected",
-               "rule automorphisms are those of rule.rc.raw preserving every node attribute except atom_map and every edge attribute"]
+               "attribute keys and values reach the model as codes that are equal iff the Python objects are == (bool kept apart from numbers)"]
 TESTED_NOT_PROVED = ["end-to-end: set of standardised reactions and of ITS hashes with pruning on == with every raw match glued (oracle, every prune case; "
                      "the proved half is: every raw match differs from a kept match by a rule automorphism)",
                      "whole-molecule templates (reaction-centre graph above the enumerator budget, about 17+ atoms) are outside the model's "
                      "evaluated domain: for them only the oracle runs (counted under outside_model_domain)",
-                     "OrbitAccuracy metrics (orbit.py) are compared with a direct recomputation in the oracle only"]
+                     "the bulk aut / dedup cases hand the model one interned label per node and edge (Python projection _coq_graph); the key "
+                     "options, the defaults of absent attributes and the rule labels are evaluated from the attribute dictionaries inside the "
+                     "model on the keys / degenerate / history / prune cases and the dedup skip configurations only"]
 LEVEL_TEXT = ("Machine-checked proof (Coq, all inputs) over an executable model of Automorphism, AutoEst, both match de-duplicators and the pruning "
               "step of SynReactor.mappings(): the enumeration is a duplicate-free list of exactly the label-preserving automorphisms, which form a "
               "group; the reported count is its length (product over components for disconnected graphs, component swaps excluded as the code "
@@ -75,7 +78,13 @@ LEVEL_TEXT = ("Machine-checked proof (Coq, all inputs) over an executable model 
               "class), so any result function invariant under rule automorphisms has the same image with and without pruning; "
               "deduplicate_matches_with_anchor keeps exactly the first match of every signature class whatever host anchor is passed, "
               "PartialMatcher's pruning is that function on the WL-1 host orbits; reused Automorphism / AutoEst objects are modelled as state "
-              "machines (lazy cache without invalidation, re-fit recomputes).  The model is tied to the code by a per-run correspondence on exhaustive small scopes, random graphs, "
+              "machines (lazy cache without invalidation, re-fit recomputes).  Round 5: for a disconnected graph the reported orbits and number are "
+              "those of the automorphisms of the whole graph that keep every component (bijection with the tuples of component automorphisms), and the "
+              "estimate never separates a reported orbit either; key options, defaults of absent attributes and the rule labels of graph_automorphisms "
+              "are modelled on attribute dictionaries (automorphisms of the analysed graph = maps preserving the configured attribute tuples / the "
+              "dictionaries up to ignored keys); orbit.py's OrbitAccuracy, the order of the reported lists (numerals proved decimal, order canonical), "
+              "the remaining views and the signatures of deduplicate_matches_with_anchor are in the model; the function drops only duplicates when "
+              "every free orbit is a singleton, and merges unrelated matches otherwise (witness).  The model is tied to the code by a per-run correspondence on exhaustive small scopes, random graphs, "
               "symmetric families, engine-produced match lists and reactor applications.")
 LEVEL_NOTE = ("Trusted: Coq kernel + vm_compute; the model and encoders; VF2 = a duplicate-free listing of the automorphisms (monitored).  Invariance "
               "of gluing under rule automorphisms is a named premise (C05), tested end-to-end here (also with partial=True).")
@@ -210,10 +219,24 @@ def _oa_obs(approx, exact, confusion=True, brute=True):
     """OrbitAccuracy(approx, exact).compute(): [0, exact-match, (confusion rows,) purity, pairwise accuracy] or [1] = ValueError"""
     from synkit.Graph.Matcher.orbit import OrbitAccuracy
     try:
-        oa = OrbitAccuracy(approx, exact)
+        if brute:
+            oa = OrbitAccuracy(approx, exact)
+        else:                                       # keyword form, arguments permuted
+            exact = list(exact)
+            oa = OrbitAccuracy(exact_orbits=exact, approx_orbits=approx)
         oa = oa.compute() if brute else oa.compute(brute_force_pairs=False)      # the fallback delegates to the same count
     except ValueError:
         return [1]
+    # the object is reusable: a second compute() and edits of the returned copies change nothing
+    m1, c1 = oa.metrics, oa.confusion_map
+    m1c, c1c = dict(m1), {k: dict(v) for k, v in c1.items()}
+    m1.clear()
+    for row in c1.values():
+        row.clear()
+    c1.clear()
+    oa.compute()
+    if oa.metrics != m1c or oa.confusion_map != c1c:
+        return [2]                                  # never a model value
     m = oa.metrics
     n = len(oa.nodes)
     out = [0, _frac(m["node_exact_match_fraction"], n or 1)]
@@ -535,6 +558,7 @@ def _reactor(case, mode, rule=None):
             return out
         return f
     pm_saved = getattr(SR, "PartialMatcher", None)
+    eng_saved = getattr(SR, "SubgraphSearchEngine", None)
     try:
         for n, o in saved.items():
             setattr(SR, n, wrap(o))
@@ -544,13 +568,35 @@ def _reactor(case, mode, rule=None):
                 def __init__(self, *a, **k):
                     k["prune_auto"] = False
                     super().__init__(*a, **k)
+
+                def get_mappings(self, *a, **k):
+                    out = super().get_mappings(*a, **k)
+                    rec["engine"] = [dict(m) for m in out]
+                    rec["engine_calls"] = rec.get("engine_calls", 0) + 1
+                    return out
             SR.PartialMatcher = _NoPrune
+        if mode == "raw" and eng_saved is not None and hasattr(eng_saved, "find_subgraph_mappings"):
+            # the reference "every raw match" is taken AT THE SOURCE: what SubgraphSearchEngine itself returns, not what reaches
+            # the pruning call (a truncation or filter between the search and the pruning must not hide behind the reference)
+            def _find(*a, **k):
+                out = eng_saved.find_subgraph_mappings(*a, **k)
+                rec["engine"] = [dict(m) for m in out]
+                rec["engine_calls"] = rec.get("engine_calls", 0) + 1
+                return out
+
+            class _Engine(eng_saved):
+                find_subgraph_mappings = staticmethod(_find)
+            SR.SubgraphSearchEngine = _Engine
         tpl = rule if rule is not None else rsmi_to_its(case["tpl"], core=case["core"])
         r = SR.SynReactor(case["sub"], tpl, invert=case["invert"], **case.get("opts", {}))
         maps = r.mappings
         n_calls = rec.get("calls", 0)
         again = r.mappings                                      # (e) a second read gives the same matches in the same order
         raw = rec.get("raw", list(maps))
+        # (exactly one search: if a refactoring searches several times and combines, the list that reached the pruning stays the reference)
+        if mode == "raw" and rec.get("engine_calls") == 1 and getattr(r, "_mappings", None) is not None:
+            r._mappings = [dict(m) for m in rec["engine"]]      # glue EVERY match the search engine returned
+            maps = again = raw = r._mappings
         res = dict(raw=[[[p, h] for p, h in m.items()] for m in raw], kept=_indices(raw, maps), n_aut=rec.get("n_aut", 0),
                    rc=GG.from_nx(r.rule.rc.raw))
         res["auts"] = rec.get("auts", [])
@@ -566,6 +612,8 @@ def _reactor(case, mode, rule=None):
             setattr(SR, n, o)
         if pm_saved is not None:
             SR.PartialMatcher = pm_saved
+        if eng_saved is not None:
+            SR.SubgraphSearchEngine = eng_saved
 
 
 def _flat(g):
@@ -580,7 +628,9 @@ def _flat(g):
 
 def _impl_prune(case, rule=None):
     r = _reactor(case, "front", rule=rule)
-    return [[r["raw"], r["kept"], r["n_aut"]], True, True, (not _prune_representatives(r)) and r["reread"]]
+    auts = r.get("auts", [])
+    sym = S([S([[u, v] for u, v in a.items()]) for a in auts]) if len(auts) <= 60 else S([])     # the symmetries themselves
+    return [[r["raw"], r["kept"], r["n_aut"]], True, True, (not _prune_representatives(r)) and r["reread"], sym]
 
 
 # ------------------------------------------------------------------ history cases (one case = a script on SHARED objects)
